@@ -1262,6 +1262,60 @@ func c06CheckProd(c c06ProdCase) engine.Result {
 	return res
 }
 
+// ---- scenario "pointer-length-grid" -----------------------------------------------------------------------
+
+type c06GridCase struct {
+	Pointer int `json:"pointer_field"`
+}
+
+// every pointer_field 0..182 x total payload lengths around the packet size and its double (the section is
+// followed by as much 0xFF stuffing as the total needs): NewPMT on the concatenated payload, and ReadPMT when the
+// total is carried by packets with adaptation-field stuffing (first packet full, the rest in a second one)
+func c06CheckGrid(c c06GridCase) engine.Result {
+	var res engine.Result
+	sec := ref.PMTSection{Program: 2, Version: byte(c.Pointer & 31), CurrentNext: true, PCRPID: 0x47, Streams: []ref.Stream{
+		{Type: 0x1B, PID: 0x47, Descs: []ref.Desc{{Tag: 0x0A, Body: []byte("eng\x00")}}}, {Type: 0x0F, PID: 0x1147}}}
+	w := c06MakeWant(&sec)
+	base := append(ref.Pointer(c.Pointer), sec.Bytes()...)
+	for _, total := range [...]int{184, 187, 188, 189, 192, 368, 375, 376, 377, 564} {
+		if total < len(base) {
+			continue
+		}
+		payload := ref.PadPayload(base, total)
+		pre := "pointer-length-grid|"
+		res.Nontrivial++
+		engine.Guard(&res, pre+"NewPMT", func() {
+			pmt, err := psi.NewPMT(payload)
+			if err != nil || pmt == nil {
+				res.Failf(pre+"NewPMT|error", "pointer_field %d, payload of %d bytes: %v", c.Pointer, total, err)
+				return
+			}
+			c06Verify(&res, pre+"NewPMT|", pmt, w, true)
+		})
+		// carried by packets: 184 bytes in the first, the rest behind adaptation-field stuffing
+		var stream []byte
+		for i, rest := 0, payload; len(rest) > 0; i++ {
+			k := min(184, len(rest))
+			pk := ref.CarryPayload(0x64, i == 0, byte(i), rest[:k])
+			stream = append(stream, pk[:]...)
+			rest = rest[k:]
+		}
+		engine.Guard(&res, pre+"ReadPMT", func() {
+			pmt, err := psi.ReadPMT(bytes.NewReader(stream), 0x64)
+			if err != nil || pmt == nil {
+				res.Failf(pre+"ReadPMT|error", "pointer_field %d, payload of %d bytes in %d packets: %v", c.Pointer, total, len(stream)/188, err)
+				return
+			}
+			c06Verify(&res, pre+"ReadPMT|", pmt, w, true)
+		})
+		if len(res.Fail) > 6 {
+			break
+		}
+	}
+	res.Outcome(c.Pointer)
+	return res
+}
+
 // ---- scenario "repeated-entries" --------------------------------------------------------------------------
 
 type c06RepCase struct {
@@ -1454,6 +1508,16 @@ func init() {
 					}
 				},
 				Check: c06CheckProd, Batch: 1,
+			},
+			&engine.Enum[c06GridCase]{
+				Name: "pointer-length-grid",
+				Rule: "EVERY pointer_field 0..182 (0xFF filler) x total payload length {184,187,188,189,192,368,375,376,377,564} reached by trailing 0xFF stuffing (PIDs and PCR_PID carrying the byte 0x47): NewPMT on the concatenated payload and ReadPMT over packets of 184 bytes + a last packet behind adaptation-field stuffing report exactly the section",
+				Gen: func(r *engine.Run, emit func(c06GridCase)) {
+					for p := 0; p <= 182; p++ {
+						emit(c06GridCase{p})
+					}
+				},
+				Check: c06CheckGrid, Batch: 4,
 			},
 			&engine.Enum[c06RepCase]{
 				Name: "repeated-entries",
